@@ -512,6 +512,9 @@ class Ref:
             self.g[name] = v
 
     def exec_stmt(self, s, loc, in_loop):
+        self.steps = getattr(self, 'steps', 0) + 1
+        if self.steps > 40000:
+            raise Unsupported('the reference run is too long (possibly non-terminating)')
         k = s[0]
         if k == 'assign':
             self.assign(s[1], self.ev(s[2], loc), loc)
